@@ -630,6 +630,8 @@ func c18Run(r *core.Run) {
 	r.Rule = "engine E: raw query text / bind parameter text / cookie text = absent, empty, EVERY byte string of length <=2 (thorough 3) over all 256 bytes, and a numeric corpus (signs, bases, overflow, 1e999, NaN, blanks) through every accessor with and without a default (queries also with the parameter name percent-escaped); cookie values of every byte string of length <=2 (thorough 3) through SetCookie -> Set-Cookie -> client -> Cookie header -> Cookie(); oracle: no panic, presence by url.ParseQuery / http.Request.Cookie, value by strconv (0 on malformed), absent or empty gives the default or zero, cookies read back byte for byte (also when set inside a before-function of the writer or after Next()); request data read before and after a sub-request served on the same instance inside the handler (after 0..2 earlier requests) is the request's own; bind parameters read after requests that the same routes refused half way (capture limit overrun, last segment missing); non-trivial = text that is present and non-numeric, or a cookie value containing a byte outside [A-Za-z0-9]"
 	r.Assumptions = []string{"net/url, net/http cookie parsing and strconv are the reference parsers (trusted)", "QueryTrim/QueryUnescape apply their conversion to the default as well; the default used (DEF) is not altered by either", "QueryStrings returns the list as parsed when the key occurs at all (a list holding one empty string is a present list)"}
 	numeric := []string{"0", "1", "-1", "+1", "007", "12345678901234567890", "-9223372036854775808", "9223372036854775807", "9223372036854775808", "0x10", "1e3", "1e999", "-1e999", "NaN", "nan", "Inf", "-inf", " 1", "1 ", "1_000", "1.5", ".5", "5.", "true", "TRUE", "t", "T", "1", "false", "F", "yes", "１", "%31", "%2B1", "+", "-", "1%001",
+		// blanks beyond ASCII around a value (QueryTrim trims what unicode calls white space)
+		"\u00a0x\u00a0", "\u3000x", "x\u2028", "\u0085x\u0085", "\u2003 x \u2003", "\u00a0", "\vx\f", "\u200bx", "\ufeffx",
 		// values that still hold a percent sign once the query string is decoded (well-formed and malformed escapes)
 		"%25", "100%25", "%25zz-top", "%2541", "a%254",
 		// the parameter given several times (first value counts; the list accessor returns all), other spellings of the name
